@@ -168,6 +168,22 @@ class CallMixin:
             if k.head == "set":
                 return SV(VRef(ops.new_set(st, ops.s_mem(self.R(st, v), ref(v.t)))), k)
             raise OutOfSubset("set() of kind %r" % (v.k,))
+        if name == "pdepth":
+            # pdepth(B, k) = #LoopNode - #EndLoopNode among B[0:k]   (uninterpreted; instances of its defining
+            # equation are supplied by the ghost statement unfold_pdepth)
+            v = self.ev(node.args[0], st, cx)
+            k_ = self.as_int(self.ev(node.args[1], st, cx))
+            return SInt(pdepth_f(ops.l_el(self.R(st, v), ref(v.t)), k_))
+        if name == "unfold_pdepth":
+            v = self.ev(node.args[0], st, cx)
+            k_ = self.as_int(self.ev(node.args[1], st, cx))
+            el = ops.l_el(self.R(st, v), ref(v.t))
+            x = z3.Select(el, k_)
+            up = z3.And(is_VCon(x), tag(x) == uni.class_id("LoopNode"))
+            dn = z3.And(is_VCon(x), tag(x) == uni.class_id("EndLoopNode"))
+            st.assume(z3.And(pdepth_f(el, 0) == 0,
+                             pdepth_f(el, k_ + 1) == pdepth_f(el, k_) + z3.If(up, 1, z3.If(dn, -1, 0))), glob=True)
+            return SBool(z3.BoolVal(True))
         if name == "seq_key":
             v = self.ev(node.args[0], st, cx)
             r = ref(v.t)
@@ -387,7 +403,7 @@ class CallMixin:
         if meth == "index":
             v = self.ev(node.args[0], st, cx)
             eqf = self.elem_eq(st, ek)
-            if not cx.spec:
+            if not cx.spec and not self.con.get("assume_index_found"):
                 self.oblige("safety/list.index", st, ops.l_contains(st, r, v.t, eqf), line, kind="safety")
             i = fresh("idx", IntS)
             j = bvar("j")
@@ -529,6 +545,14 @@ class CallMixin:
             dk = kinds.get(p, ANY) if not isinstance(kinds.get(p), str) else kind_of_annotation(kinds[p], uni)
             if env[p].k == ANY and dk != ANY:
                 env[p] = SV(env[p].t, dk)
+        for gname, gk in (con.get("ghost_params") or {}).items():
+            src = ((self.con.get("ghost_call_args") or {}).get(key) or {}).get(gname)
+            if src is None:
+                raise OutOfSubset("call of %s: no ghost argument given for %s" % (key, gname))
+            cenv = dict(getattr(self, "pre_env", {}) or {})
+            cenv.update(st.env)
+            gv = self.evs(src, st, Ctx(spec=True), cenv)
+            env[gname] = SV(gv.t, kind_of_annotation(gk, uni) if gv.k == ANY else gv.k, gv.h)
         ordinal = self.next_ordinal("call[" + key + "]")
         label = "call[%s]#%d" % (key, ordinal)
         pre_state = st.fork()
